@@ -381,6 +381,9 @@ package msgpipeline
 //@   assert-call (*msgpipelineDelivery).getRcptModifiers : $rcptBlock == gSelBlock && gSelBlock.rejectErr == nil
 //@   assert-call (*msgpipelineDelivery).getDelivery : rcptBlock == gSelBlock && rcptBlock.rejectErr == nil && 0 <= rangeindex + 1 && rangeindex + 1 < len(rcptBlock.targets) && $tgt == rcptBlock.targets[rangeindex + 1]
 //@   assert-call (module.Delivery).AddRcpt : $rcptTo == to && $d == delivery.Delivery
+// C09: whenever a target is given an address that differs from what the client supplied, the reverse translation for
+// exactly that address has been recorded (so its statuses can be reported under the client's address).
+//@   assert-call (module.Delivery).AddRcpt : $rcptTo == originalTo || (has(dd.msgMeta.OriginalRcpts, $rcptTo) && dd.msgMeta.OriginalRcpts[$rcptTo] == originalTo)
 //@   assert-update OriginalRcpts : $key == to && $value == originalTo && $key != $value
 // C09: what a target delivery's recipient list (the keys of statuses reported for targets that cannot report per
 // recipient) grows by is the address the client supplied, once per AddRcpt accepted by that target.
